@@ -8,6 +8,7 @@ unset GOTOOLCHAIN GOSUMDB || true
 cp /repo/go.sum harness/go.sum
 (cd harness && go test -c -tags verif -o /dev/null . )
 T=$(mktemp -d)
+export JAVA_TOOL_OPTIONS="-Djava.io.tmpdir=$T"      # SANY unpacks its standard modules into java.io.tmpdir
 cp spec/*.tla "$T"/
 for f in "$T"/*.tla; do
   case "$f" in */ClipProof.tla|*/AllocApa.tla) continue;; esac      # a TLAPS proof module (tlapm, check C03) and an Apalache module (apalache-mc, check C11): their library modules are not on SANY's path
